@@ -8,6 +8,13 @@ class BoundCallable(CanCustomize, object):
         self.__executor = executor
         self.__fn = fn
 
+        # Let with_* chains applied to the bound callable inherit
+        # the name of the executor, as chains on the executor itself do.
+        for name_attr in ("_name", "_CustomizableThreadPoolExecutor__name"):
+            if hasattr(executor, name_attr):
+                self._name = getattr(executor, name_attr)
+                break
+
         try:
             update_wrapper(self, fn)
         except AttributeError:
